@@ -11,6 +11,11 @@ const CORES: [&str; 3] = [
     ".external A\n.orig x5000\nU .fill A\n   LD R0, U\n.end",
     ".orig x7000\nLOC LD R0, LOCD\nHALT\nLOCD .stringz \"a;b\"\n.end",
 ];
+/// a fourth, large file (index 3): 3000 labelled words and comment padding, more than 65536 bytes of text, so that combined sources cross 2^16 bytes
+fn big_core() -> &'static String {
+    static B: std::sync::OnceLock<String> = std::sync::OnceLock::new();
+    B.get_or_init(|| { let mut s = String::from(".orig x8000\n"); for k in 0..3000 { s.push_str(&format!("BG{k} .fill x{:04X} ; {k}\n", k)); if k % 50 == 0 { s.push_str("; padding padding padding\n"); } } s.push_str(".end"); assert!(s.len() > 65536); s })
+}
 const AFFIX: [&str; 8] = ["", "\n", "\r\n", "  ", "\n\n", " ;é", "\n ;c\n", "\n    "];
 const PREFIX: [&str; 8] = ["", "\n", "\r\n", "  ", "\n\n", " ;é\n", "\n ;c\n", "\n    "];
 
@@ -41,18 +46,28 @@ pub fn case(k: u64) -> Option<Case> {
         return Some(Case { files: vec![(pm[0], a[0], a[1]), (pm[1], a[2], a[3])], right });
     }
     let k = k - pairs;
-    if k >= 6 * 512 * 2 * 2 { return None; }
+    if k >= 6 * 512 * 2 * 2 {
+        // scale cases: the large file linked with one or two small ones, in every position, every suffix of the large file, both folds
+        let k = k - 6 * 512 * 2 * 2;
+        if k >= SCALE_CASES { return None; }
+        let (right, k) = (k % 2 == 1, k / 2);
+        let (suf, k) = ((k % 8) as usize, k / 8);
+        let shapes: [&[usize]; 9] = [&[3, 0], &[0, 3], &[3, 1], &[1, 3], &[2, 3], &[3, 0, 1], &[0, 3, 1], &[0, 1, 3], &[2, 3, 0]];
+        let sh = shapes[(k % 9) as usize];
+        return Some(Case { files: sh.iter().map(|c| (*c, if *c == 3 { 0 } else { (suf + c) % 8 }, if *c == 3 { suf } else { (suf * 3 + c) % 8 })).collect(), right });
+    }
     let (right, k) = (k % 2 == 1, k / 2);
     let (pre, k) = (k % 2 == 1, k / 2);
     let (pm, k) = (perms(3)[(k % 6) as usize].clone(), k / 6);
     let s = [(k % 8) as usize, (k / 8 % 8) as usize, (k / 64 % 8) as usize];
     Some(Case { files: (0..3).map(|i| (pm[i], if pre { s[(i + 1) % 3] } else { 0 }, s[i])).collect(), right })
 }
+pub const SCALE_CASES: u64 = 9 * 8 * 2;
 pub const CASES: u64 = 6 * 64 * 64 * 2 + 6 * 512 * 2 * 2;
 
 struct Own { text: String, obj: ObjectFile, lines: Vec<(u16, String)>, labels: Vec<String> }
 fn own(core: usize, pre: usize, suf: usize) -> Result<Own, (String, String)> {
-    let text = format!("{}{}{}", PREFIX[pre], CORES[core], AFFIX[suf]);
+    let text = format!("{}{}{}", PREFIX[pre], if core == 3 { big_core().as_str() } else { CORES[core] }, AFFIX[suf]);
     let ast = parse_ast(&text).map_err(|e| ("machinery:linksrc-parse".to_string(), format!("{text:?}: {e:?}")))?;
     let obj = assemble_debug(ast, &text).map_err(|e| ("machinery:linksrc-assemble".to_string(), format!("{text:?}: {e:?}")))?;
     let sym = obj.symbol_table().ok_or(("machinery:linksrc".to_string(), "no symbol table".to_string()))?;
@@ -121,6 +136,12 @@ pub fn run_for(ctx: &Ctx, rep: &mut Report, prop: &'static str) {
         let k = j * stride + (j % stride);
         let Some(c) = case(k) else { return };
         acc.evals += 1; acc.transitions += c.files.len() as u64; acc.nontrivial += 1; acc.count("linked_source_cases", 1);
+        for (p, sig, d) in check(&c) { if p == prop || p == "ALL" { acc.violation(sig, c.encode(), d); } }
+    });
+    rep.absorb(r);
+    let r = sweep(ctx, SCALE_CASES, 2, |j, acc| {
+        let Some(c) = case(CASES + j) else { return };
+        acc.evals += 1; acc.transitions += c.files.len() as u64; acc.nontrivial += 1; acc.count("linked_source_scale_cases", 1);
         for (p, sig, d) in check(&c) { if p == prop || p == "ALL" { acc.violation(sig, c.encode(), d); } }
     });
     rep.absorb(r);
